@@ -21,3 +21,4 @@ INVARIANTS
   C11_Mintable
   C11_TakenIdsRefuse
   C11_Frame
+  Compose
